@@ -349,14 +349,12 @@ class FlagByListProvider(BaseFlagProvider):
         expected_type = Union[str, Iterable[str]] if allow_single_value else Iterable[str]
 
         def flag_loader(data) -> Flag:
-            data_type = type(data)
-
-            if isinstance(data, Iterable) and data_type is not str:
+            if isinstance(data, Iterable) and not isinstance(data, str):
                 if strict_coercion and isinstance(data, CollectionsMapping):
                     raise ExcludedTypeLoadError(expected_type, Mapping, data)
                 process_data = tuple(data)
             else:
-                if not allow_single_value or data_type is not str:
+                if not allow_single_value or not isinstance(data, str):
                     raise TypeLoadError(expected_type, data)
                 process_data = (data,)
 
